@@ -69,6 +69,11 @@ func isASCII(s string) bool {
 // c14checkAuth verifies the bytes written for an authentication attempt.
 // want=="" means nothing may have been written.
 func c14checkAuth(written string, offered []string, cred Credential, user, secret string) (key, detail string) {
+	// reference: PLAIN for passwords, X-OAUTH2 for tokens (from the property text, not from the library's value)
+	refMechs := []string{"PLAIN"}
+	if c14kindOf[cred.secret+"\x00"+strings.Join(cred.mechanisms, ",")] == "oauth" || c14currentKind == "oauth" {
+		refMechs = []string{"X-OAUTH2"}
+	}
 	us := splitAll([]byte(written))
 	var els []unit
 	for _, u := range us {
@@ -77,7 +82,7 @@ func c14checkAuth(written string, offered []string, cred Credential, user, secre
 		}
 	}
 	common := ""
-	for _, m := range cred.mechanisms {
+	for _, m := range refMechs {
 		for _, o := range offered {
 			if o == m {
 				common = m
@@ -90,7 +95,7 @@ func c14checkAuth(written string, offered []string, cred Credential, user, secre
 	}
 	if common == "" {
 		if len(written) != 0 {
-			return "wrote-without-common-mechanism", fmt.Sprintf("offered %v, credential %v, yet %q was written", offered, cred.mechanisms, written)
+			return "wrote-without-common-mechanism|kind=" + c14currentKind, fmt.Sprintf("offered %v, credential kind %s supports %v, yet %q was written", offered, c14currentKind, refMechs, written)
 		}
 		return "", ""
 	}
@@ -150,6 +155,9 @@ func c14checkAuth(written string, offered []string, cred Credential, user, secre
 	}
 	return "", ""
 }
+
+var c14kindOf = map[string]string{}
+var c14currentKind = "password"
 
 func c14permanent(err error) bool {
 	var ce ConnError
@@ -222,6 +230,7 @@ func TestVerifC14(t *testing.T) {
 	for _, cr := range creds {
 		cr := cr
 		scs = append(scs, hx.Scenario{Name: "direct/strings/" + cr.name, Run: func(c *hx.Ctx) {
+			c14currentKind = cr.name
 			for _, u := range c14strings {
 				for _, s := range c14strings {
 					c14direct(c, u, s, cr.mk(s), []string{"X-OAUTH2", "PLAIN"}, "success")
@@ -230,6 +239,7 @@ func TestVerifC14(t *testing.T) {
 			c.Sample(map[string]string{"user": `<&>"'`, "secret": "a\x00b", "cred": cr.name})
 		}})
 		scs = append(scs, hx.Scenario{Name: "direct/mechanisms/" + cr.name, Run: func(c *hx.Ctx) {
+			c14currentKind = cr.name
 			for _, l := range c14mechLists() {
 				for rp := range c14replies {
 					_ = rp
@@ -250,6 +260,7 @@ func TestVerifC14(t *testing.T) {
 			cr, ml := cr, ml
 			name := fmt.Sprintf("connect/%s/mechs=%d", cr.name, mi)
 			scs = append(scs, hx.Scenario{Name: name, Opt: vrt.Options{Bound: 0}, Body: func() {
+				c14currentKind = cr.name
 				ui := vrt.ChooseFree("user", len(users))
 				si := vrt.ChooseFree("secret", len(secrets))
 				user, secret := users[ui], secrets[si]
